@@ -54,4 +54,53 @@ def jobs(tier):
     J.append(A("DVectorDVectorDotProd", loops=["DVectorDVectorDotProd"], clause="read-only scan in bounds (v2 at least as long as v1)"))
     J.append(A("DVectorMean", loops=["DVectorMean"], clause="frame: only *mean"))
     J.append(A("DVectorSDEV", loops=["DVectorSDEV", "DVectorMean"], clause="frame: only *sdev"))
+    J += matrix_jobs(tier)
+    return J
+
+
+M = ["matrix.c", "vector.c", "memwrapper.c", "numeric.c"]
+
+def B(fn, defs, clause, tier="quick"):
+    out = [B1(fn, defs, clause, tier)]
+    if defs.get("VC_R") == 0 and defs.get("VC_C") == 0 or (defs.get("VC_R2") == 0 and defs.get("VC_C2") == 0):
+        out.append(B1(fn, dict(defs, VC_NULLDATA=1), clause + " [0x0 operand in the initMatrix state: NULL row table]", tier))
+    return out
+
+def B1(fn, defs, clause, tier="quick"):
+    tag = ",".join("%s=%s" % (k[3:], v) for k, v in defs.items())
+    mx = max(int(v) for v in defs.values()) if defs else 1
+    return Job("%s@%s" % (fn, tag) if tag else fn, "C14/matrix.c", entry="h_" + fn, srcs=M, enforce=fn, kind="bounded",
+               defines={k: str(v) for k, v in defs.items()}, unwind=mx + 3, tier=tier,
+               bound="concrete shape %s (one solver call per shape), all cell values symbolic, every result cell checked" % (tag or "-"),
+               clause=clause)
+
+def matrix_jobs(tier):
+    J = []
+    N = 2 if tier == "quick" else 3
+    R = range(0, N + 1)
+    J.extend(B("initMatrix", {}, "initMatrix: empty, NULL data"))
+    for r in R:
+        for c in R:
+            d = {"VC_R": r, "VC_C": c}
+            J.extend(B("NewMatrix", d, "NewMatrix: shape, zero cells, well-formed rows"))
+            J.extend(B("DelMatrix", d, "DelMatrix frees struct, row table and every row exactly once"))
+            J.extend(B("MatrixSet", d, "MatrixSet: every cell = value (square and rectangular paths)"))
+            J.extend(B("setMatrixValue", d, "setMatrixValue: in range written (NaN/Inf -> MISSING), others preserved; out of range no write"))
+            J.extend(B("getMatrixValue", d, "getMatrixValue: cell or NaN sentinel when out of range"))
+            J.extend(B("getMatrixRow", d, "getMatrixRow: fresh vector with the row; NULL out of range"))
+            J.extend(B("getMatrixColumn", d, "getMatrixColumn: fresh vector with the column; NULL out of range"))
+            if r > 0:
+                J.extend(B("MatrixDeleteRowAt", d, "DeleteRowAt: rows above shift up, others preserved"))
+            if c > 0:
+                J.extend(B("MatrixDeleteColAt", d, "DeleteColAt: columns right shift left, others preserved"))
+            for (r2, c2) in sorted(set([(0, 0), (r, c), (r + 1, c), (1, 2), (c, r)])):
+                d2 = dict(d, VC_R2=r2, VC_C2=c2)
+                J.extend(B("ResizeMatrix", d2, "ResizeMatrix: new shape, all zero, old rows released"))
+                J.extend(B("MatrixCopy", d2, "MatrixCopy: destination of any prior shape becomes a deep, equal copy; source unchanged"))
+            for sz in range(0, N + 2):
+                d3 = dict(d, VC_S=sz)
+                for f in ("MatrixAppendRow", "MatrixAppendUIRow"):
+                    J.extend(B(f, d3, "AppendRow (operand shorter/equal/longer/empty): shape, old cells preserved, exposed cells zero, new row = operand padded"))
+                for f in ("MatrixAppendCol", "MatrixAppendUICol"):
+                    J.extend(B(f, d3, "AppendCol (operand shorter/equal/longer/empty): shape, old cells preserved, exposed cells zero, new column = operand padded"))
     return J
